@@ -146,6 +146,8 @@ func (m *observerManager) AddObserver(o *Observer, w *World) {
 	}
 
 	o.hasComps, o.hasWith, o.hasWithout = false, false, false
+	// The observer may have been registered before, possibly in a world with other component IDs.
+	o.compsMask, o.withMask, o.withoutMask = bitMask{}, bitMask{}, bitMask{}
 
 	switch o.event {
 	case OnAddRelations, OnRemoveRelations:
